@@ -467,8 +467,13 @@ pub fn project(text: &str, wgsl_source: &str) -> Result<Value, String> {
                 } else if name.starts_with("ENTRY_") && v.get("$str").is_some() {
                     entry_consts.push(json!({"const": name, "value": v["$str"], "ty": toks(&c.ty).replace(' ', "")}));
                 } else {
-                    consts.push(json!({"name": name, "ty": toks(&c.ty).replace(' ', ""),
-                        "lit": const_lit(&v), "pub": matches!(c.vis, syn::Visibility::Public(_))}));
+                    let ty = toks(&c.ty).replace(' ', "");
+                    let lit = const_lit(&v);
+                    let mut cj = json!({"name": name, "ty": ty, "lit": lit, "pub": matches!(c.vis, syn::Visibility::Public(_))});
+                    if let Some(cn) = const_canon(&ty, &lit) {
+                        cj["canon"] = json!(cn);
+                    }
+                    consts.push(cj);
                 }
             }
             syn::Item::Impl(i) => {
@@ -555,6 +560,45 @@ pub fn project(text: &str, wgsl_source: &str) -> Result<Value, String> {
         "items": items_order, "mods": top_mods,
         "structs_sha": hash_strs(&struct_sec), "rest_sha": hash_strs(&rest_sec), "nosource_sha": hash_strs(&nosource_sec),
     }))
+}
+
+/// the value rustc gives a literal constant of type `ty` (Rust's own decimal parsing is correctly rounded, like the compiler's)
+fn const_canon(ty: &str, lit: &Value) -> Option<String> {
+    let (neg, l) = if lit["k"] == "neg" && lit["op"] == "-" { (true, &lit["e"]) } else { (false, lit) };
+    let k = l["k"].as_str()?;
+    if k == "bool" {
+        return if neg || ty != "bool" { None } else { Some(format!("bool:{}", l["v"].as_bool()?)) };
+    }
+    if k != "int" && k != "float" {
+        return None;
+    }
+    let digits = l["v"].as_str()?;
+    let suffix = l["suffix"].as_str().unwrap_or("");
+    if !suffix.is_empty() && suffix != ty {
+        return None;
+    }
+    match ty {
+        "f32" => {
+            let x: f32 = digits.parse().ok()?;
+            Some(format!("f32:{:08x}", (if neg { -x } else { x }).to_bits()))
+        }
+        "f64" => {
+            let x: f64 = digits.parse().ok()?;
+            Some(format!("f64:{:016x}", (if neg { -x } else { x }).to_bits()))
+        }
+        "i32" | "u32" | "i64" | "u64" if k == "int" => {
+            let x: i128 = digits.parse().ok()?;
+            let x = if neg { -x } else { x };
+            let ok = match ty {
+                "i32" => i32::try_from(x).is_ok(),
+                "u32" => u32::try_from(x).is_ok(),
+                "i64" => i64::try_from(x).is_ok(),
+                _ => u64::try_from(x).is_ok(),
+            };
+            if ok { Some(format!("{ty}:{x}")) } else { None }
+        }
+        _ => None,
+    }
 }
 
 fn const_lit(v: &Value) -> Value {
